@@ -738,3 +738,88 @@ func scenarioTunFail(withStacks bool) {
 	}
 	scenarioResult("tunfail", sl, "", "")
 }
+
+// scenarioSendInFlight — "after Down or Close has returned the device puts nothing further on the
+// network": a bind.Send call that is in progress (parked inside the sim bind's SendGate, i.e. the
+// datagram not yet handed over) must be waited for by Down, Close and BindUpdate, because
+// SendBuffers holds net.RLock across the send.  For each of the three: session with A, a TUN
+// packet parks A's sender in bind.Send, the operation is started; if it returns while the send is
+// still parked, the clause is broken.  On the reference tree it returns only after the release.
+func scenarioSendInFlight(withStacks bool) {
+	sl := &stepLog{}
+	for _, what := range []string{"down-handshake", "down", "bindupdate", "close"} {
+		a := cosim.NewPeer("A", "192.0.2.7:5555", "10.0.0.2/32")
+		w, err := cosim.NewWorld(cosim.Config{Up: true}, true, a)
+		if err != nil {
+			panic(err)
+		}
+		if _, _, _, err := w.RefInitiates(a, a.Addr, ref.Tai64n(time.Now())); err != nil {
+			panic(err)
+		}
+		w.Inject(a.Addr, a.Session().Next(ref.Pad(ref.IPv4([4]byte{10, 0, 0, 2}, [4]byte{10, 9, 9, 9}, 40, 2))))
+		w.Bind.TakeSent()
+		entered := make(chan struct{})
+		release := make(chan struct{})
+		var armed atomic.Bool
+		armed.Store(true)
+		w.Bind.SendGate = func(bufs [][]byte, to netip.AddrPort) {
+			if armed.Swap(false) {
+				close(entered)
+				<-release
+			}
+		}
+		if what == "down-handshake" {
+			// the parked send is a handshake response written by a handshake worker, which no
+			// Peer.Stop joins: only the net lock makes Down wait for it
+			time.Sleep(25 * time.Millisecond) // past the 20 ms initiation flood gap
+			st := ref.CreateInitiation(a.Priv, ref.NewPrivate(), w.DevPub, a.Psk, 0x4242, ref.Tai64n(time.Now()))
+			w.Bind.Inject(sim.Dgram{From: a.Addr, Data: st.Msg})
+		} else {
+			w.Tun.Inject(ref.IPv4([4]byte{10, 9, 9, 9}, [4]byte{10, 0, 0, 2}, 64, 3))
+		}
+		select {
+		case <-entered:
+		case <-time.After(5 * time.Second):
+			panic("no send reached bind.Send (" + what + ")")
+		}
+		d := make(chan struct{})
+		go func() {
+			defer close(d)
+			switch what {
+			case "down", "down-handshake":
+				w.Dev.Down()
+			case "bindupdate":
+				w.Dev.BindUpdate()
+			case "close":
+				w.Dev.Close()
+			}
+		}()
+		early := false
+		select {
+		case <-d:
+			early = true
+		case <-time.After(400 * time.Millisecond):
+		}
+		sl.add("%s started while a data send is parked inside bind.Send: returned before the send was released: %v", what, early)
+		if early {
+			close(release)
+			time.Sleep(50 * time.Millisecond)
+			n := 0
+			for _, e := range w.Bind.Log() {
+				if e.Kind == "send" || e.Kind == "send-while-closed" {
+					n++
+				}
+			}
+			scenarioResult("sendinflight", sl, "send-in-flight-when-"+what+"-returned",
+				fmt.Sprintf("%s returned while a bind.Send call that had started on the open bind was still in progress (SendBuffers no longer holds net.RLock across the send); the send completed afterwards (%d send events logged after release)", what, n))
+		}
+		close(release)
+		if !waitAll([]chan struct{}{d}, 10*time.Second) {
+			finishReplay("sendinflight", sl, []chan struct{}{d}, time.Second, withStacks)
+		}
+		if what != "close" {
+			w.Dev.Close()
+		}
+	}
+	scenarioResult("sendinflight", sl, "", "")
+}
